@@ -37,6 +37,7 @@ VERIF = os.path.dirname(os.path.dirname(os.path.abspath(__file__)))
 REPO = os.environ.get("AK_PY_REPO", "/repo")
 NSHARDS = int(os.environ.get("VERIF_SHARDS", "16"))
 NPROC = int(os.environ.get("VERIF_NPROC", "16"))
+SCALE = float(os.environ.get("VERIF_EXAMPLES_SCALE", "1"))   # experiments only: scales the example count of every part
 
 
 def use_repo():
@@ -200,7 +201,7 @@ def _run_shard(args):
         else:
             import hypothesis
             from hypothesis import given
-            n = max(1, part.examples // nshards)
+            n = max(1, int(part.examples * SCALE) // nshards)
             sseed = derive_seed(seed, mod.ID, part.name, shard)
 
             @hypothesis.seed(sseed)
@@ -227,7 +228,7 @@ def _shrink_hyp(args):
         mod, part = _get_part(mod_name, tier, part_name)
         import hypothesis
         from hypothesis import given
-        n = max(1, part.examples // nshards)
+        n = max(1, int(part.examples * SCALE) // nshards)
         sseed = derive_seed(seed, mod.ID, part.name, shard)
         best = [None]
 
